@@ -133,6 +133,18 @@ def gen(seed, run, tier='quick'):
             continue
         decl.apply(model, act)
         decls.append(act)
+        if act['a'] == 'derive_unit' and rng.random() < 0.3 and \
+                model.has_ref(act['type']) and \
+                model.types[act['type']]['quantum'] is None:
+            # the same definition once more, declared through a term
+            t = model.types[act['type']]
+            n = model.fresh()
+            alias = {'a': 'term_unit', 'type': act['type'], 'sym': f'u{n}',
+                     'items': [[u, e] for u, (_, e) in
+                               zip(act['units'], t['items'])],
+                     'k': None, 'nums': [], 'spell': 0, 'expect': 'accept'}
+            decl.apply(model, alias)
+            decls.append(alias)
         if act['a'] == 'scaled_unit' and rng.random() < 0.25 and \
                 model.types[act['type']]['quantum'] is None:
             # an alias: another unit with the same definition ("first
